@@ -164,7 +164,8 @@ def compare_with_ref(ref, impl, out, case, what="table differs from the StarTabl
 WF_SPELL = {
     "text": ["", "a", " a ", "-", "nan", "None", "1.5", "é µ", "*", "x" * 12, " ", "TRUE", "k:", "a\x00b", "z\x00",
              # characters str.splitlines() breaks at, but which do not end a line of a text file
-             "a\x0cb", "p\u2028q", "p\u2029q", "u\x85v", "r\x1cs", "r\x1ds", "r\x1es", "v\x0bw"],
+             "a\x0cb", "p\u2028q", "p\u2029q", "u\x85v", "r\x1cs", "r\x1ds", "r\x1es", "v\x0bw",
+             "y" * 256, "long text " * 120],
     "onoff": ["0", "1", "true", "false", "True", "FALSE", " tRuE ", " 0 ", "TRUE\n"] + rc.BOOL_CASES,
     "datetime": ["2020-01-02", "2020-01-02 03:04:05", "2020-01-02T03:04:05.000006", "2020-1-2", "20200102", "-", "nan",
                  "NaN", " NAN ", " - ", "2262-04-12", "1677-01-01", "2020",
@@ -182,14 +183,15 @@ WF_SPELL["datetime"] = WF_SPELL["datetime"] + NS_SPELL
 WF_NATIVE = {
     "text": ["s", "", 5, 1.5, True, None, datetime.datetime(2020, 1, 2)],
     "onoff": [True, False, 0, 1, 0.0, 1.0, -0.0, "true"],
-    "datetime": [datetime.datetime(2020, 1, 2), datetime.datetime(2020, 1, 2, 3, 4, 5, 6), "2020-01-02", "-"],
+    "datetime": [datetime.datetime(2020, 1, 2), datetime.datetime(2020, 1, 2, 3, 4, 5, 6), "2020-01-02", "-",
+                 datetime.datetime(1999, 12, 31, 23, 59, 59, 999999)],
     "num": [0, 1, -3, 1.5, float("nan"), float("inf"), True, False, None, 10 ** 20, "1.5", "-", -0.0,
             # doubles whose shortest repr has 16-17 significant digits: compared bit for bit
             1 / 3, math.pi, 0.1 + 0.2, 2.0 ** 53 + 2.0, 960.3363318270713, 5e-324, 1.7976931348623157e308],
 }
 
 
-LONG_COLUMN = [63, 64, 65, 127, 128, 129, 255, 256, 257, 999, 1000, 1001, 1024, 1025]
+LONG_COLUMN = [63, 64, 65, 127, 128, 129, 255, 256, 257, 999, 1000, 1001, 1024, 1025, 1101, 2049, 4097, 8193]
 _NAIVE_DT = None
 
 
@@ -470,7 +472,7 @@ def run(tier, seed, model_ok, translator, search=False):
         # a few long columns per run (nothing may change at a column length: 128, 1000, 1024 …)
         long_rows = None
         if i < (len(LONG_COLUMN) if thorough else 4):
-            long_rows = LONG_COLUMN[i] if thorough else [129, 1001, rng.choice(LONG_COLUMN), rng.choice(LONG_COLUMN)][i]
+            long_rows = LONG_COLUMN[i] if thorough else [129, 1101, 4097, rng.choice(LONG_COLUMN)][i]
             out.count("c:long-column")
         grid, info = wf_grid(rng, native, n_row=long_rows)
         case = {"seed": seed, "index": i, "stream": "c", "cells": grid_to_json(grid), "info": info, "native": native}
